@@ -17,7 +17,7 @@
 #endif
 int atexit(void (*fn)(void)) { (void) fn; return 0; }
 static const MPT_STRUCT(type_traits) tr[2] = { MPT_TYPETRAIT_INIT(12), MPT_TYPETRAIT_INIT(20) };
-static const char *names[3] = { "solve", "beta_", "abc" };   /* "solve" is a proper prefix of the built-in interface "solver" */   /* third is too short */
+static const char *names[4] = { "solve", "beta_", "abc", "object" };   /* "object" is the name of a built-in interface */   /* "solve" is a proper prefix of the built-in interface "solver" */   /* third is too short */
 
 void harness(void)
 {
@@ -63,6 +63,7 @@ void harness(void)
 #endif
 			const MPT_STRUCT(named_traits) *e;
 			for (j = 0; j < n; j++) if (nameidx[j] == ni && kind[j] == op) dup = 1;   /* duplicates are per kind */
+			if (op == 2 && ni == 3) dup = 1;   /* the name of a built-in interface is taken from the start */
 #if !(defined(OPS) && defined(NAMEIDX))
 			{ int cross = 0; for (j = 0; j < n; j++) if (nameidx[j] == ni && kind[j] != op && kind[j] >= 2) cross = 1;
 			  /* region: the same name registered both as interface and as metatype */
